@@ -225,3 +225,139 @@ Print Assumptions C03_depth_budget.
 Print Assumptions C03_prefix.
 Print Assumptions C03_prefix_any_target.
 Print Assumptions C03_prefix_struct.
+
+(* ============================================================================================== *)
+(* TRANSLATION TIE (phase 3): what follows is about Gen/C03gen.v, which tools/gotrans/c03.go regenerates from
+   nbt/decode.go, nbt/snbt.go and nbt/dynbt/decode.go on every run (vocabulary: Model/C03_syntax.v). *)
+From Coq Require Import Bool.
+From GoMC Require Import Model.C03_syntax Gen.C03gen Proofs.C03_tie Proofs.C03_tie_top Proofs.C03_skel.
+Open Scope bool_scope.
+
+(* THE ACCEPTANCE TABLE of Decoder.unmarshal for the seven scalar tags - read function, read before the kind test,
+   the reflect.Kind lists of `switch vk := val.Kind()` with what each clause stores, error default - interpreted
+   as a reader IS the model's dispatch, for every destination type and every nesting budget *)
+Theorem C03_scalar_table_translated : forall e, In e unmarshal_scalar_table ->
+  (forall f dep t, t <> GAny -> t <> GMapAny -> dty (S f) dep t (Z.to_N (se_tag e)) = interp_entry e t) /\
+  (forall f dep, dany (S f) dep (Z.to_N (se_tag e)) = interp_entry_any e).
+Proof. intros e He. split; intros; [now apply dty_scalar_table_ok|now apply dany_scalar_table_ok]. Qed.
+Theorem C03_scalar_table_complete :
+  map (fun e => Z.to_N (se_tag e)) unmarshal_scalar_table = [idByte; idShort; idInt; idFloat; idLong; idDouble; idString] /\
+  forallb (fun e => se_read_first e && se_default_err e) unmarshal_scalar_table = true.
+Proof. split; [exact scalar_table_tags|exact scalar_table_shape]. Qed.
+
+(* the opening statements (enter, element type, count, `< 0`, payload read) of the array / list / compound cases, in
+   SOURCE ORDER, interpreted, are how the model's cases open: interface{}, typed, struct / map destinations, and
+   the binary -> SNBT converter *)
+Theorem C03_steps_any_translated : forall f dep,
+  dany (S f) dep idByteArray = interp_steps (steps_of unmarshal_steps idByteArray) dep 0 0 [] (fun _ _ bs => Ret (ABytes bs)) /\
+  dany (S f) dep idIntArray = interp_steps (steps_of unmarshal_steps idIntArray) dep 0 0 []
+    (fun _ n _ => l <- rep f (Z.to_N n) rd_i32 [] ;; Ret (AInts l)) /\
+  dany (S f) dep idLongArray = interp_steps (steps_of unmarshal_steps idLongArray) dep 0 0 []
+    (fun _ n _ => l <- rep f (Z.to_N n) rd_i64 [] ;; Ret (ALongs l)) /\
+  dany (S f) dep idList = interp_steps (steps_of unmarshal_steps idList) dep 0 0 []
+    (fun et n _ => l <- rep f (Z.to_N n) (dany f (dep - 1) et) [] ;; Ret (AList l)) /\
+  dany (S f) dep idCompound = interp_steps (steps_of unmarshal_steps idCompound) dep 0 0 []
+    (fun _ _ _ => m <- comp_loop f rd_tag (dany f (dep - 1)) (fun k v m => map_set k v m) [] ;; Ret (AMap m)).
+Proof. exact dany_steps_ok. Qed.
+Theorem C03_steps_typed_translated : forall f dep t, t <> GAny -> t <> GMapAny ->
+  dty (S f) dep t idList = interp_steps (steps_of unmarshal_steps idList) dep 0 0 []
+    (fun et n _ => match t with
+                   | GSl e => l <- rep f (Z.to_N n) (dty f (dep - 1) e et) [] ;; Ret (XSlice l)
+                   | _ => Fail eType
+                   end).
+Proof. intros f dep t H1 H2. now destruct (dty_steps_ok f dep t H1 H2) as (_ & H & _). Qed.
+Theorem C03_steps_snbt_translated : forall f dep,
+  dtext (S f) dep idList = interp_steps (steps_of encode_steps idList) dep 0 0 []
+    (fun et n _ => _ <- rep f (Z.to_N n) (dtext f (dep - 1) et) [] ;; Ret tt) /\
+  dtext (S f) dep idCompound = interp_steps (steps_of encode_steps idCompound) dep 0 0 []
+    (fun _ _ _ => comp_loop f rd_tag (dtext f (dep - 1)) (fun _ _ a => a) tt).
+Proof. intros f dep. destruct (dtext_steps_ok f dep) as (_ & _ & _ & H1 & H2). now split. Qed.
+
+(* the element kinds the typed-array cases accept (the case list of TagByteArray, the `tk != ..` chain of
+   TagIntArray, the switch of TagLongArray) are exactly the slices the model accepts *)
+Theorem C03_elem_kinds_translated : forall e,
+  model_accepts idByteArray e = mem_rk (kind_of e) (kinds_of idByteArray) /\
+  model_accepts idIntArray e = mem_rk (kind_of e) (kinds_of idIntArray) /\
+  model_accepts idLongArray e = mem_rk (kind_of e) (kinds_of idLongArray).
+Proof. exact elem_kinds_ok. Qed.
+
+(* readInt8, readString, readTag and rawRead translated statement by statement (constants and comparison
+   operators from the AST) ARE the model's readers *)
+Theorem C03_readers_translated :
+  gen_readInt8 = rd_i8 /\ gen_readString = rd_string /\ gen_readTag = rd_tag /\ gen_rawRead = dskip.
+Proof. exact (conj readInt8_tie (conj readString_tie (conj readTag_tie rawRead_tie))). Qed.
+(* readInt16/32/64 assemble their bytes big-endian: the (index, shift) pairs of the source are be_terms, and
+   or-ing the shifted bytes is the big-endian number *)
+Theorem C03_bigendian_translated :
+  readInt16_terms = be_terms 2 /\ readInt32_terms = be_terms 4 /\ readInt64_terms = be_terms 8 /\
+  (forall a b, a < 256 -> b < 256 -> assemble readInt16_terms [a; b] = unbe [a; b]) /\
+  (forall a b c d, a < 256 -> b < 256 -> c < 256 -> d < 256 -> assemble readInt32_terms [a; b; c; d] = unbe [a; b; c; d]).
+Proof.
+  destruct readInt_terms_ok as (H1 & H2 & H3 & _).
+  split; [exact H1|]. split; [exact H2|]. split; [exact H3|]. split; [exact assemble16|exact assemble32].
+Qed.
+(* Decoder.enter on d.depth against the model's budget dep = max_open - depth *)
+Theorem C03_enter_translated : forall depth : Z, (0 <= depth <= Z.of_N max_open)%Z ->
+  let dep := max_open - Z.to_N depth in
+  match gen_enter depth with
+  | None => (dep =? 0) = true
+  | Some d' => (dep =? 0) = false /\ max_open - Z.to_N d' = dep - 1
+  end.
+Proof. exact enter_tie. Qed.
+(* the bodies of enter, readTag, readString, readInt8..64, rawRead, readBytes, the TagByteArray / TagIntArray /
+   TagLongArray / TagList cases of unmarshal and dynbt's unmarshal, readTag, readString, appendN are the recorded ones *)
+Theorem C03_skeletons_recorded :
+  C03gen.skel_enter = C03_expected.skel_enter /\ C03gen.skel_rawRead = C03_expected.skel_rawRead /\
+  C03gen.skel_unmarshal_TagByteArray = C03_expected.skel_unmarshal_TagByteArray /\
+  C03gen.skel_unmarshal_TagIntArray = C03_expected.skel_unmarshal_TagIntArray /\
+  C03gen.skel_unmarshal_TagLongArray = C03_expected.skel_unmarshal_TagLongArray /\
+  C03gen.skel_unmarshal_TagList = C03_expected.skel_unmarshal_TagList /\
+  C03gen.skel_dynbt_unmarshal = C03_expected.skel_dynbt_unmarshal /\
+  C03gen.skel_dynbt_appendN = C03_expected.skel_dynbt_appendN /\
+  C03gen.skel_readBytes = C03_expected.skel_readBytes.
+Proof.
+  exact (conj skel_enter_ok (conj skel_rawRead_ok (conj skel_unmarshal_TagByteArray_ok (conj skel_unmarshal_TagIntArray_ok
+    (conj skel_unmarshal_TagLongArray_ok (conj skel_unmarshal_TagList_ok (conj skel_dynbt_unmarshal_ok
+    (conj skel_dynbt_appendN_ok skel_readBytes_ok)))))))).
+Qed.
+
+(* the headline theorems over the TRANSLATED pieces *)
+Theorem C03_total_scalar_translated : forall e, In e unmarshal_scalar_table -> forall s,
+  (forall t, t <> GAny -> t <> GMapAny -> prog s (run_flat (interp_entry e t) s)) /\
+  prog s (run_flat (interp_entry_any e) s).
+Proof. exact scalar_table_total. Qed.
+Theorem C03_total_rawRead_translated : forall fuel dep id s, (length s + 1 < fuel)%nat ->
+  prog s (run_flat (gen_rawRead fuel dep id) s).
+Proof. exact rawRead_total. Qed.
+Theorem C03_rawRead_errors_translated : forall f dep,
+  (forall id h rest, array_id id -> lenN h = 4 -> (sx32 (unbe h) < 0)%Z -> is_ok (run_flat (gen_rawRead (S f) dep id) (h ++ rest)) = false) /\
+  (forall id s, 12 < id -> is_ok (run_flat (gen_rawRead (S f) dep id) s) = false) /\
+  (forall s, run_flat (gen_rawRead (S f) 0 idList) s = FErr eDepth /\ run_flat (gen_rawRead (S f) 0 idCompound) s = FErr eDepth).
+Proof. exact rawRead_errors. Qed.
+Theorem C03_readString_negative_translated : forall h rest, lenN h = 2 -> (sx16 (unbe h) < 0)%Z ->
+  run_flat gen_readString (h ++ rest) = FErr eNeg.
+Proof. exact readString_negative. Qed.
+
+Example C03_ex_table :   (* TagShort into an int32 and into a uint16, TagFloat into a float64, through the translated table *)
+  (forall e, find_entry idShort unmarshal_scalar_table = Some e ->
+     run_flat (interp_entry e GI32) [255; 254; 9] = FOk (XInt (-2)) [9] /\
+     run_flat (interp_entry e GU16) [255; 254; 9] = FOk (XInt 65534) [9] /\
+     run_flat (interp_entry e GI8) [255; 254; 9] = FErr eType) /\
+  (forall e, find_entry idFloat unmarshal_scalar_table = Some e ->
+     run_flat (interp_entry e GF64) [63; 192; 0; 0] = FOk (XF64 4609434218613702656) []).
+Proof. split; intros e H; vm_compute in H; inversion H; subst; repeat split; vm_compute; reflexivity. Qed.
+
+Print Assumptions C03_scalar_table_translated.
+Print Assumptions C03_scalar_table_complete.
+Print Assumptions C03_steps_any_translated.
+Print Assumptions C03_steps_typed_translated.
+Print Assumptions C03_steps_snbt_translated.
+Print Assumptions C03_elem_kinds_translated.
+Print Assumptions C03_readers_translated.
+Print Assumptions C03_bigendian_translated.
+Print Assumptions C03_enter_translated.
+Print Assumptions C03_skeletons_recorded.
+Print Assumptions C03_total_scalar_translated.
+Print Assumptions C03_total_rawRead_translated.
+Print Assumptions C03_rawRead_errors_translated.
+Print Assumptions C03_readString_negative_translated.
